@@ -550,6 +550,46 @@ func mutants(w *W, f func(ss []sym)) {
 	})
 }
 
+// herePairs: pairs of here-documents (quoted/unquoted delimiter, well-formed/ill-formed body) in each arrangement of
+// two commands: a body is scanned for expansions according to ITS OWN delimiter.  valid selects the sentences the
+// grammar model accepts (C02) or rejects (C03).
+func herePairs(w *W, valid bool) {
+	hs := []string{"<<E", "<<'E'", "<<-E", "<<F", "<<G", "<<'G'", "<<H", "<<I"}
+	for _, h1 := range hs {
+		for _, h2 := range hs {
+			for _, t := range [][]string{{"a", h1, h2}, {"a", h1, "|", "b", h2}, {"a", h1, ";", "b", h2}, {"a", h1, "\n", "b", h2}, {"{", "a", h1, ";", "}", h2}, {"a", h1, "$(c)", h2}} {
+				if !w.Mine() {
+					continue
+				}
+				ss := syms(append(append([]string{}, t...), "\n")...)
+				m := gramParse(ss)
+				if m.dontcare != "" || m.ok != valid {
+					continue
+				}
+				r := render(ss)
+				w.Announce(r.src)
+				o := runParse(r.src)
+				w.Count("states", 1)
+				w.Count("evaluations", 1)
+				w.Count("here_document_pairs", 1)
+				w.Count("traces_validated_against_impl", 1)
+				w.Count("distinct_nontrivial", 1)
+				var cl, d string
+				if m.ok {
+					cl, d = c02Judge(ss, m, r, o)
+					cl = c02Class(cl, ss, r, m, o)
+				} else {
+					cl, d = c03Judge(ss, m, r, o)
+					cl = c03Class(cl, ss, r, m, o)
+				}
+				if d != "" {
+					w.Violation(cl, symCase{symTexts(ss), r.src}, d)
+				}
+			}
+		}
+	}
+}
+
 func c03Mutations(w *W) {
 	// words that are not Names in the name positions (for variable, function name)
 	derivations(w.thorough(), func(name string, texts []string) {
@@ -574,40 +614,7 @@ func c03Mutations(w *W) {
 			}
 		}
 	})
-	// pairs of here-documents (quoted/unquoted delimiter, well-formed/ill-formed body) in each arrangement of two
-	// commands: a body is scanned for expansions according to ITS OWN delimiter
-	hs := []string{"<<E", "<<'E'", "<<-E", "<<F", "<<G", "<<'G'", "<<H"}
-	for _, h1 := range hs {
-		for _, h2 := range hs {
-			for _, t := range [][]string{{"a", h1, h2}, {"a", h1, "|", "b", h2}, {"a", h1, ";", "b", h2}, {"a", h1, "\n", "b", h2}, {"{", "a", h1, ";", "}", h2}, {"a", h1, "$(c)", h2}} {
-				if !w.Mine() {
-					continue
-				}
-				ss := syms(append(append([]string{}, t...), "\n")...)
-				m := gramParse(ss)
-				if m.dontcare != "" {
-					continue
-				}
-				r := render(ss)
-				w.Announce(r.src)
-				o := runParse(r.src)
-				w.Count("states", 1)
-				w.Count("evaluations", 1)
-				w.Count("here_document_pairs", 1)
-				w.Count("traces_validated_against_impl", 1)
-				w.Count("distinct_nontrivial", 1)
-				var cl, d string
-				if m.ok {
-					cl, d = c02Judge(ss, m, r, o)
-				} else {
-					cl, d = c03Judge(ss, m, r, o)
-				}
-				if d != "" {
-					w.Violation(c03Class(cl, ss, r, m, o), symCase{symTexts(ss), r.src}, d)
-				}
-			}
-		}
-	}
+	herePairs(w, false)
 	mutants(w, func(ss []sym) {
 		if lexicallyEntangled(ss) {
 			return
@@ -633,6 +640,7 @@ func c03Mutations(w *W) {
 
 // c02Mutations: the mutants the grammar still derives are judged like any other accepted sentence.
 func c02Mutations(w *W) {
+	herePairs(w, true)
 	mutants(w, func(ss []sym) {
 		if lexicallyEntangled(ss) {
 			return
